@@ -184,6 +184,7 @@ class Run:
         self.samples = []
         self.sample_keys = set()
         self.violations = []
+        self._vio_keys = set()
         self.notes = []
         self.inconclusive = []
         self.case = None  # (stream, index)
@@ -232,8 +233,10 @@ class Run:
             "key": key,
             "witness": to_jsonable(witness if witness is not None else {}, 200),
         }
-        if len(self.violations) < 400:
+        dedupe = (monitor, key)
+        if len(self.violations) < 400 or (dedupe not in self._vio_keys and len(self.violations) < 2000):
             self.violations.append(entry)
+        self._vio_keys.add(dedupe)
 
     def note_inconclusive(self, reason):
         self.inconclusive.append(str(reason))
@@ -401,7 +404,7 @@ def conclude(run, mod, replay_mode=False):
             known_hits.setdefault(matched["key"], [matched, 0])[1] += 1
     # replays
     lines = []
-    replay_dir = os.path.join(VERIF, "replays", prop_id)
+    replay_dir = os.path.join(os.environ.get("VERIF_REPLAY_DIR") or os.path.join(VERIF, "replays"), prop_id)
     seen_keys = set()
     for vio in fresh:
         dedupe = (vio["monitor"], vio.get("key"))
